@@ -64,7 +64,7 @@ func GenGenesis(r *rand.Rand, o GenOpts) *ct.GenesisState {
 	}
 	seen := map[pairKey]bool{}
 	for i := 0; i < np; i++ {
-		d := RemoteDomains[r.Intn(len(RemoteDomains))]
+		d := Domains[r.Intn(len(Domains))]
 		t := Token(r.Intn(NTokens))
 		k := pairKey{d, string(t)}
 		if seen[k] {
@@ -77,6 +77,8 @@ func GenGenesis(r *rand.Rand, o GenOpts) *ct.GenesisState {
 			local = "uUSDC"
 		case r.Intn(10) == 0:
 			local = "ueure"
+		case r.Intn(14) == 0:
+			local = ""
 		}
 		gs.TokenPairList = append(gs.TokenPairList, ct.TokenPair{RemoteDomain: d, RemoteToken: t, LocalToken: local})
 	}
@@ -92,7 +94,7 @@ func GenGenesis(r *rand.Rand, o GenOpts) *ct.GenesisState {
 	}
 	if !o.NoUsed {
 		for i := r.Intn(4); i > 0; i-- {
-			gs.UsedNoncesList = append(gs.UsedNoncesList, ct.Nonce{SourceDomain: RemoteDomains[r.Intn(len(RemoteDomains))], Nonce: HostileNonces[r.Intn(len(HostileNonces))]})
+			gs.UsedNoncesList = append(gs.UsedNoncesList, ct.Nonce{SourceDomain: Domains[r.Intn(len(Domains))], Nonce: HostileNonces[r.Intn(len(HostileNonces))]})
 		}
 		// dedupe
 		m := map[nonceKey]bool{}
@@ -350,7 +352,9 @@ func (g *Gen) Inbound(perturb bool) *ct.MsgReceiveMessage {
 		}
 		m.Recipient = modulePadded
 		recip := ref.Pad32(AcctBytes(r.Intn(NAccounts)))
-		if r.Intn(5) == 0 {
+		if r.Intn(14) == 0 { // the module's own account as mint recipient
+			recip = append([]byte(nil), modulePadded...)
+		} else if r.Intn(5) == 0 {
 			for i := 0; i < 12; i++ {
 				recip[i] = byte(0xe0 + i)
 			}
@@ -358,7 +362,7 @@ func (g *Gen) Inbound(perturb bool) *ct.MsgReceiveMessage {
 		amt := g.amount()
 		m.Body = BurnBody(0, tok, recip, amt, g.rand32())
 	} else {
-		m.Src = RemoteDomains[r.Intn(len(RemoteDomains))]
+		m.Src = Domains[r.Intn(len(Domains))]
 		m.Sender = g.rand32()
 		m.Recipient = g.rand32()
 		m.Body = g.body()
@@ -605,7 +609,7 @@ func (g *Gen) admin(m *State) sdk.Msg {
 	case 4:
 		return &ct.MsgUpdateTokenController{From: g.maybeWrong(m.Owner), NewTokenController: g.acct()}
 	case 5:
-		sizes := []uint64{0, 131, 132, 133, 8000, 300, 1 << 40}
+		sizes := []uint64{0, 131, 132, 133, 8000, 300, 1 << 40, 1 << 63, ^uint64(0), 8000, 300}
 		return &ct.MsgUpdateMaxMessageBodySize{From: g.maybeWrong(m.Owner), MessageSize: sizes[r.Intn(len(sizes))]}
 	case 6, 7:
 		d := Domains[r.Intn(len(Domains))]
@@ -637,10 +641,10 @@ func (g *Gen) admin(m *State) sdk.Msg {
 	case 19, 20:
 		return &ct.MsgUnpauseSendingAndReceivingMessages{From: g.maybeWrong(m.Pauser)}
 	case 21, 22:
-		local := []string{"uusdc", "UUSDC", "uusdc", "ueure"}[r.Intn(4)]
-		return &ct.MsgLinkTokenPair{From: g.maybeWrong(m.TC), RemoteDomain: RemoteDomains[r.Intn(len(RemoteDomains))], RemoteToken: Token(r.Intn(NTokens)), LocalToken: local}
+		local := []string{"uusdc", "UUSDC", "uusdc", "ueure", "uusdc", "uUsdc", "uusdc", ""}[r.Intn(8)]
+		return &ct.MsgLinkTokenPair{From: g.maybeWrong(m.TC), RemoteDomain: Domains[r.Intn(len(Domains))], RemoteToken: Token(r.Intn(NTokens)), LocalToken: local}
 	case 23:
-		d, tok := RemoteDomains[r.Intn(len(RemoteDomains))], Token(r.Intn(NTokens))
+		d, tok := Domains[r.Intn(len(Domains))], Token(r.Intn(NTokens))
 		if dd, tt, ok := g.E.pickLinked(r, false); ok && r.Intn(2) == 0 {
 			d, tok = dd, tt
 		}
